@@ -8,8 +8,8 @@ EXTENDS GroupName, Json, IOUtils
 In == JsonDeserialize(IOEnv.VIN)
 Traces == In.traces
 
-VARIABLES tid, i, skip, bad, nev
-tvars == <<table, out, tid, i, skip, bad, nev>>
+VARIABLES tid, pos, skip, bad, nev
+tvars == <<table, out, tid, pos, skip, bad, nev>>
 
 ToRef(r) == IF r.kind = "ctor" THEN [kind |-> "ctor", csg |-> r.csg, psgs |-> r.psgs]
             ELSE [kind |-> r.kind, text |-> r.text]
@@ -26,23 +26,23 @@ ObsOK(e, o, t) ==
                        /\ e.obs.req = o.eq       \* reflected comparison agrees
   /\ LoggedState(e) = StateOf(t)
 
-TInit == GInit /\ tid = 1 /\ i = 1 /\ skip = FALSE /\ bad = {} /\ nev = 0
+TInit == GInit /\ tid = 1 /\ pos = 1 /\ skip = FALSE /\ bad = {} /\ nev = 0
 
 TStep ==
   /\ tid <= Len(Traces)
-  /\ IF skip \/ i > Len(Traces[tid]) THEN
-        /\ tid' = tid + 1 /\ i' = 1 /\ skip' = FALSE
+  /\ IF skip \/ pos > Len(Traces[tid]) THEN
+        /\ tid' = tid + 1 /\ pos' = 1 /\ skip' = FALSE
         /\ table' = <<>> /\ out' = [kind |-> "init"] /\ UNCHANGED <<bad, nev>>
-     ELSE LET e == Traces[tid][i] IN
+     ELSE LET e == Traces[tid][pos] IN
         /\ \/ e.op = "insert" /\ Insert(Resolve(ToRef(e.ref)), e.v)
            \/ e.op = "lookup" /\ Lookup(Resolve(ToRef(e.ref)))
            \/ e.op = "compare" /\ Compare(Resolve(ToRef(e.ref)), Resolve(ToRef(e.ref2)))
         /\ nev' = nev + 1
         /\ IF ObsOK(e, out', table')
-           THEN i' = i + 1 /\ UNCHANGED <<tid, skip, bad>>
-           ELSE /\ bad' = bad \cup {[tid |-> tid, i |-> i, exp |-> out',
+           THEN pos' = pos + 1 /\ UNCHANGED <<tid, skip, bad>>
+           ELSE /\ bad' = bad \cup {[tid |-> tid, i |-> pos, exp |-> out',
                                      state |-> StateOf(table')]}
-                /\ skip' = TRUE /\ UNCHANGED <<tid, i>>
+                /\ skip' = TRUE /\ UNCHANGED <<tid, pos>>
 
 TSpec == TInit /\ [][TStep]_tvars
 
